@@ -793,3 +793,28 @@ def pairwise_docs(tokens=False):
                            ('nested', 'SEC 1.\n  ~p **{{^{{*~a\n  ~b}}}}** ~q\n', 'act')]:
         out.append(('%s/remark2' % pn, _pw_finish(tmpl, tokens), root))
     return out
+
+
+def fn_nest_docs():
+    """FOOTNOTE blocks nested in FOOTNOTE blocks (depth 2 and 3) with a reference inside the innermost block whose marker is that of
+    an enclosing block, of its own block, of a sibling block or of none; the enclosing block claimed by an earlier reference, by a
+    later one, or by nobody; in a section, at top level, in a list item and in a table cell. Deterministic."""
+    out = []
+    ctxs = [('top', [], 0), ('sec', ['SEC 1. - ~H'], 1), ('item', ['ITEMS', '  ITEM (a)'], 2), ('cell', ['TABLE', '  TR', '    TC'], 3)]
+    for cn, head, ind in ctxs:
+        p = '  ' * ind
+        for depth in (2, 3):
+            marks = ['1', '2', '3'][:depth]
+            for target in marks + ['9']:
+                for claim in ('none', 'before', 'after'):
+                    lines = list(head)
+                    lines.append(p + '~a' + ('{{FOOTNOTE 1}}' if claim == 'before' else ''))
+                    for d, m in enumerate(marks):
+                        q = p + '  ' * d
+                        lines += [q + 'FOOTNOTE ' + m, q + '  ~n' + m]
+                    q = p + '  ' * depth
+                    lines[-1] = q + '~in{{FOOTNOTE %s}} ~again' % target
+                    if claim == 'after':
+                        lines.append(p + '~z{{FOOTNOTE 1}}')
+                    out.append(('fn-nest/%s-d%d-t%s-%s' % (cn, depth, target, claim), '\n'.join(lines).replace('~', '') + '\n', 'act'))
+    return out
